@@ -18,6 +18,7 @@ func plan(tier string, seed int64) []run.Batch {
 	if tier == "thorough" {
 		n = 8
 	}
+	bs = append(bs, run.Batch{Kind: "fleet", Seed: seed*1000 + 881, N: 1, TimeoutS: 400})
 	return append(bs, run.Batch{Kind: "prodlife", Seed: seed*1000 + 991, N: n, TimeoutS: 400})
 }
 
